@@ -8,6 +8,7 @@ import (
 	"github.com/glebziz/fs_db"
 	"github.com/glebziz/fs_db/internal/model"
 	"github.com/glebziz/fs_db/internal/model/sequence"
+	"github.com/glebziz/fs_db/internal/verifhook"
 )
 
 func (u *UseCase) DeleteOld(ctx context.Context) error {
@@ -20,7 +21,9 @@ func (u *UseCase) DeleteOld(ctx context.Context) error {
 		return fmt.Errorf("tx repo oldest: %w", err)
 	}
 
+	verifhook.Point("gc.horizon")
 	files := u.core.DeleteOld(ctx, model.MainTxId, tx.Seq)
+	verifhook.Point("gc.collected")
 	err = u.DeleteFiles(ctx, files)
 	if err != nil {
 		return fmt.Errorf("delete files: %w", err)
